@@ -582,7 +582,7 @@ def t_list(rng, gid, shared=None):
         single = maybe(rng, 0.5)
         same = rng.randint(1, 3)
         sizes = [same if (single and maybe(rng, 0.9)) else rng.randint(1, 3) for _ in range(ngroups)]
-        nogroup = maybe(rng, 0.25)
+        nogroup = maybe(rng, 0.35)
         if nogroup:
             # no grouping at all: every subgrader receives one box
             ngroups = max(ngroups, 2)
@@ -635,8 +635,15 @@ def t_list(rng, gid, shared=None):
                 follow.append('abc'[:len(ans)] if sizes[gnum - 1] == 1 else ans[pos % len(ans)])
             else:
                 follow.append(ans)
-        pal = {'right': [follow] + [[pick(rng, letters) for _ in range(n)] for _ in range(2)],
-               'wrong': [[pick(rng, letters) for _ in range(n)] for _ in range(3)],
+        # ... and variations that keep each box's length (a nested grader handed a bare text
+        # looks at nothing else before grading it)
+        same_len = {1: ['a', 'b', 'z'], 2: ['ab', 'ba', 'zz'], 3: ['abc', 'cab', 'zzz']}
+
+        def vary(box):
+            return pick(rng, same_len.get(len(box), [box]))
+        pal = {'right': [follow, [vary(b) for b in follow], [pick(rng, letters) for _ in range(n)]],
+               'wrong': [[vary(b) for b in follow], [vary(b) for b in reversed(follow)],
+                         [pick(rng, letters) for _ in range(n)]],
                'malformed': [[pick(rng, letters) for _ in range(max(1, n - 1))], ['a'] * (n + 1)]}
         return {'bp': {'id': gid, 'cls': 'ListGrader', 'cfg': cfg}, 'configured': True, 'kind': 'list', 'n': n,
                 'pal': pal, 'expects': {'valid': [], 'invalid': []}, 'targets': [], 'depth': 2,
